@@ -105,7 +105,7 @@ def check(case, rec, T=None, P=None):
     if rooted:
         rec.count("rooted_decodes")
         if t.root_escapes:
-            rec.violation("root-path", "path-outside-root", f"{case.short()}\ndecoded with root_path='.log.msg': {TR.pstr(t.root_escapes[0])} does not lie under that root", case.replay())
+            rec.violation("root-path", "path-outside-root", f"{case.short()}\ndecoded with root_path='.log.msg[2]': {TR.pstr(t.root_escapes[0])} does not lie under that root", case.replay())
     til = tiling.Tiling(case.d)
     for ev in t.events:
         til.on_event(ev)
